@@ -198,7 +198,12 @@ class SchemaGen:
             mf = [dict(self.sigs[f]) for f in r.sample(OBJ_FIELD_NAMES, 2) + r.sample(LEAF_FIELD_NAMES, 3) + r.sample(self.echo, 2)]
             # the mutation root type is not always called "Mutation" (`schema { mutation: Writes }`)
             self.mutation = {"kind": "object", "name": r.choice(["Mutation", "Mutation", "Writes"]), "fields": mf, "interfaces": []}
-            self.types.append(self.mutation)
+            if with_mutation == "shared":
+                # `schema { query: Query mutation: Query }`: ONE object type serves both operations (the engine accepts it);
+                # what makes root fields run serially is the operation being a mutation, not the type it starts from
+                self.mutation = self.query
+            else:
+                self.types.append(self.mutation)
         self.subscription = None
         if with_subscription:
             sf = [dict(self.sigs[f]) for f in r.sample(OBJ_FIELD_NAMES, 2) + r.sample(LEAF_FIELD_NAMES, 2)]
@@ -416,7 +421,7 @@ class SchemaGen:
         """resolver environment: root fields of Query/Mutation get explicit resolvers"""
         r = self.r
         res = {}
-        roots = [self.query] + ([self.mutation] if self.mutation else []) + ([self.subscription] if self.subscription else [])
+        roots = [self.query] + ([self.mutation] if self.mutation and self.mutation is not self.query else []) + ([self.subscription] if self.subscription else [])
         for root in roots:
             for f in root["fields"]:
                 coord = f"{root['name']}.{f['name']}"
